@@ -517,6 +517,7 @@ type envT struct {
 	initSc    map[bool]*scenario // pseudo-scenario holding the transitions that build the initial states
 	initStats map[bool]*vx.Stats
 	initSeen  map[string]bool
+	initMemo  map[string]initState // executed prefixes of the operation sequences that build initial states
 
 	treeCache sync.Map // commit-ish sha -> map[path]blobsha
 	blobCache sync.Map // blob sha -> []byte (small blobs only)
